@@ -13,7 +13,9 @@
    machine returns, one call (C13_interrupt_is_transparent) or any number of calls (C13_calls_ignore_dead_fields), as long
    as the reference run stays inside the program and keeps running.  NOT proved: the case of a cursor beyond column 0 (one
    line break is forced by design, after which TAB, POS and print zones differ), runs that trace (TRON re-announces the
-   line) and calls that cross an INPUT / INKEY$ wait; these are checked on runs by the C13 monitor.  STOP and END inside
+   line); these are checked on runs by the C13 monitor.  An INPUT in the way is covered step by step: the interrupt at the
+   prompt (C13_interrupt_at_prompt_is_transparent), the reply (C13_reply_ignores_dead_fields) and the call that stores the
+   fields or unwinds to the prompt again (C13_field_stores_ignore_dead_fields).  STOP and END inside
    the program are covered like the interrupt (C13_stop_is_transparent, C13_end_is_transparent): after the report, the
    prompt and CONT, the call returns what the machine would have returned had the statement been skipped. *)
 From BL Require Import Base.Prelude Lang.Ast Mach.Val Mach.Compile Mach.Listing Mach.Runtime Proofs.Slicing Proofs.ContTrip Proofs.Dirty Proofs.DeadFields Proofs.ContRun.
@@ -267,3 +269,41 @@ Example C13_end_applies :
   /\ nthN (l_ops (pg_link (r_prog r))) (r_pc r) = Some OpEnd
   /\ safe_run Drv.Driver.dummy_oracle (r_entry r) (N.to_nat 50) (has_ind r) (set_pc r (r_pc r + 1)).
 Proof. exact end_premises. Qed.
+
+(* ---- an interrupt while the program waits at an INPUT prompt (Proofs/ContTrip.v, ContRun.v) ---- *)
+Theorem C13_cont_instruction_waits : forall O r k h, r_dirty r = false -> Linked (r_prog r) -> r_tron r = false ->
+  is_stopped (r_cont r) = false -> is_running (r_cont r) = false ->
+  exec_loop O (S k) h (entered r) = (resumed r, Ok EvRunning).
+Proof. exact cont_instruction_waits. Qed.
+Print Assumptions C13_cont_instruction_waits.
+
+Theorem C13_interrupt_at_prompt_is_transparent : forall O r k k',
+  r_state r = StInput -> r_pc r < r_entry r -> r_dirty r = false -> r_tron r = false -> Linked (r_prog r) ->
+  r_entry r = pg_direct (r_prog r) -> r_col r = 0 -> tidy r ->
+  let rB := at_prompt (rt_interrupt r) in
+  rt_enter O rB cont_text = Ok (entered rB, true)
+  /\ rt_execute O (entered rB) (N.succ k) = Ok (resumed rB, EvRunning)
+  /\ same_up_to (firstnN (pg_direct (r_prog r)) (l_ops (pg_link (r_prog r))) ++ [OpCont; OpEnd])
+                (rt_execute O (resumed rB) k') (rt_execute O r k').
+Proof. exact interrupt_at_prompt_is_transparent. Qed.
+Print Assumptions C13_interrupt_at_prompt_is_transparent.
+
+Example C13_prompt_applies :
+  let r := waiting_machine in
+  r_state r = StInput /\ r_pc r < r_entry r /\ r_dirty r = false /\ r_tron r = false /\ Linked (r_prog r)
+  /\ r_entry r = pg_direct (r_prog r) /\ r_col r = 0 /\ tidy r /\ r_stack r <> nil.
+Proof. exact waiting_premises. Qed.
+
+(* ---- the reply and the call that stores its fields ---- *)
+Theorem C13_reply_ignores_dead_fields : forall O r s c t ops, r_state r = StInput ->
+  exists c' t', rt_enter O (L c t ops r) s = Ok (L c' t' ops (set_col (enter_input O r s) 0), true)
+                /\ rt_enter O r s = Ok (set_col (enter_input O r s) 0, true).
+Proof. exact reply_ignores_dead_fields. Qed.
+Print Assumptions C13_reply_ignores_dead_fields.
+
+Theorem C13_field_stores_ignore_dead_fields : forall O r k e0 c t ops,
+  r_state r = StInputRunning -> ls_dir_errors (r_listing r) = [] ->
+  safe_run O e0 (N.to_nat k) (has_ind r) r -> firstnN e0 ops = firstnN e0 (l_ops (pg_link (r_prog r))) ->
+  same_up_to ops (rt_execute O (L c t ops r) k) (rt_execute O r k).
+Proof. exact field_stores_ignore_dead_fields. Qed.
+Print Assumptions C13_field_stores_ignore_dead_fields.
